@@ -127,24 +127,26 @@ theorem deepRef_step {P : Nat → Prop} {h0 : Heap} (hP : ∀ x, h0.length ≤ x
         · rename_i st2 he
           rw [he] at hl
           exact ⟨hl.1, fun x h => by simp at h⟩
-      · rename_i v fr orb ofr hc
+      · rename_i b fr orb ofr hc
         have i1 := cloneFr_inv (placeholder st a) fr inv1
         have i2 := cloneFr_inv (cloneFr (placeholder st a) fr).1 ofr i1
-        have h3 := ih (cloneFr (cloneFr (placeholder st a) fr).1 ofr).1 (.addr orb) i2
+        have hl := deepList_inv ih [.addr b, .addr orb] (cloneFr (cloneFr (placeholder st a) fr).1 ofr).1 i2
         split
-        · rename_i st2 r' he
-          rw [he] at h3
+        · rename_i st2 rs he
+          rw [he] at hl
           split
-          · rename_i orb'
-            refine ⟨finish_inv _ _ _ h3.1 hn ?_, fun x h => by simp at h; omega⟩
+          · rename_i b' orb'
+            refine ⟨finish_inv _ _ _ hl.1 hn ?_, fun x h => by simp at h; omega⟩
             intro x hx
+            have hh := (hl.2 _ rfl).2
             simp [refsOf] at hx
-            subst hx
-            exact hP _ (h3.2 _ rfl)
-          · exact ⟨h3.1, fun x h => by simp at h⟩
+            rcases hx with rfl | rfl
+            · exact hP _ (hh _ (by simp))
+            · exact hP _ (hh _ (by simp))
+          · exact ⟨hl.1, fun x h => by simp at h⟩
         · rename_i st2 he
-          rw [he] at h3
-          exact ⟨h3.1, fun x h => by simp at h⟩
+          rw [he] at hl
+          exact ⟨hl.1, fun x h => by simp at h⟩
       · exact ⟨inv1, fun x h => by simp at h⟩
   · rename_i hnf hna
     exact ⟨inv, fun x h => by simp at h; exact absurd h (hna x)⟩
